@@ -9,11 +9,12 @@ Rel3 == <<{}, <<{"none", "base_pub", "base_prot", "base_vpub", "member", "arrmem
           <<{"none", "base_pub", "base_vpub", "staticmember"}, {"none", "base_pub", "base_priv", "member", "arrmember"}>>>>
 
 \* later classes are mostly implicit: what they inherit is the point
-LaterSmall == {<<d, c, T0, v>> : d \in {D0, <<"default", "pub">>}, c \in {D0, <<"default", "pub">>},
-                                  v \in {"none", "over", "overc"}}
+\* (an explicitly defaulted destructor is deleted when a base or member cannot be destroyed)
+LaterSmall == {<<d, c, t, v>> : d \in {D0, <<"default", "pub">>}, c \in {D0, <<"default", "pub">>},
+                                 t \in {T0, <<"default", "pub", FALSE>>}, v \in {"none", "over", "overc"}}
 LaterBig == {<<d, c, t, v>> : d \in {D0, <<"default", "pub">>, <<"user", "pub">>},
                               c \in {D0, <<"default", "pub">>},
-                              t \in {T0, <<"user", "pub", FALSE>>},
+                              t \in {T0, <<"user", "pub", FALSE>>, <<"default", "pub", FALSE>>},
                               v \in {"none", "over", "overc", "pure"}}
 Rel3q == <<{}, <<{"base_pub", "base_vpub", "member"}>>,
            <<{"none", "base_pub"}, {"none", "base_pub", "member"}>>>>
